@@ -247,6 +247,10 @@ C16 = [
         (DB, "        path = self.path / FILE_LOCK\n        return path_lock(str(path), shared=False)",
          "        path = self.path / FILE_LOCK\n        path.touch(exist_ok=True)\n        return path_lock(str(path), shared=False)"),
     ], 'C16/lock-exclusion'),
+    ('stored-dataset-rounded', DB,
+     "            model = write_csv(model, path=data_path, force=True)",
+     "            model = write_csv(model.replace(dataset=model.dataset.round(0)), path=data_path, force=True)",
+     'C16/entry-not-equivalent-after-fault-free-store'),
     ('log-written-without-lock', CTX,
      "        with self._write_lock(log_path):\n            with open(log_path, 'a') as fh:",
      "        if True:\n            with open(log_path, 'a') as fh:", None),
